@@ -31,7 +31,19 @@ Hooking in: `results = run.explore('report-<name>', cases_<name>(run.tier), run_
 r['extra'] carries 'report_cells' {table: cells compared} and 'report_units' {'L|T|M': cases}
 for vacuity checks (interasm also 'assemblies_with_uneven_corner_shares', 'layouts_with_vacancy').
 
-Two kinds fire on the pinned tree (genuine, see the author's report):
+Output files other than dassh.out (probes 'report-dumps', 'report-asmtables'): a FieldRecorder wrapped
+round Assembly.calculate / Core.calculate_gap_temperatures copies the in-memory fields after every axial
+plane; after the real sweep + postprocess EVERY csv of the run directory is parsed and compared row by row
+(file set, planes present, assembly id, height, region index, field; '%.18e' round-trips doubles, so field
+cells are compared with tolerance 0, heights with 1e-12 m = the rounding of the plane heights, own averages
+with 4 n eps).  The files are SI (K, m, Pa) whatever the input units are (the tables label "z (m)").
+AssemblyTables hold, per requested height, the dumped plane itself or the linear interpolation between the
+two dumped planes that bracket it (dassh.plot._interp_z); the inlet plane brackets from below.
+Suggested property per file: temp_coolant_int/byp -> C01, temp_duct_mw -> C11, temp_pin -> C13,
+temp_coolant_gap* -> C02, pressure_drop -> C14, temp_average / temp_maximum / assembly tables -> C15
+(violations carry scenario.prop).
+
+Two kinds fired on the pinned tree before they were repaired (see the author's report):
   report-power-truncated        Gr* < 0 (uniform pin power: skew - 1 = -1 ulp) needs 10 characters
                                 in a 9-character column; "-5.425E-17" is printed as "-5.425E-1"
   report-flow-inlet-temperature scenario.coolant = sodium: the flow table says "values reported
@@ -47,7 +59,7 @@ from fractions import Fraction as F
 
 import numpy as np
 
-from ..run import new_result, violation, site_of, guarded
+from ..run import new_result, violation, site_of, guarded, Hang
 from .. import scenario as S
 from .. import observe as O
 from .c03 import integral_exact
@@ -109,6 +121,12 @@ def to_units(scn, L, T, M):
     st = s.get('setup') or {}
     if st.get('axial_mesh_size') is not None:
         st['axial_mesh_size'] = cl(st['axial_mesh_size'])
+    if st.get('axial_plane') is not None:
+        st['axial_plane'] = [cl(x) for x in st['axial_plane']]
+    if (st.get('Dump') or {}).get('interval') is not None:
+        st['Dump']['interval'] = cl(st['Dump']['interval'])
+    for t in (st.get('AssemblyTables') or {}).values():
+        t['axial_positions'] = [cl(x) for x in t['axial_positions']]
     c = s['core']
     c['inlet'] = t_out(c.get('inlet', T_IN), T)
     c['length'] = cl(c['length'])
@@ -301,7 +319,7 @@ class Rejected(Exception):
     pass
 
 
-def execute(scn, c, V, record=None, snapshot=None, budget_steps=20000):
+def execute(scn, c, V, record=None, snapshot=None, budget_steps=20000, keep_csv=False):
     """Build the scenario, construct the real Reactor with write_output=True,
     (snapshot), attach recorders, sweep, postprocess, read dassh.out.
     Returns dict(rx, text, snap, rec) or None after appending a violation."""
@@ -319,11 +337,30 @@ def execute(scn, c, V, record=None, snapshot=None, budget_steps=20000):
             return None
         out = {'rx': rx, 'snap': snapshot(rx) if snapshot else None,
                'rec': record(rx) if record else None}
-        with S.capture_log():
-            rx.temperature_sweep()
-            rx.postprocess()
+        cap2 = S.capture_log(level=20)
+        try:
+            with cap2:
+                rx.temperature_sweep()
+                rx.postprocess()
+        except SystemExit as e:
+            V.append(violation('report-run-aborted', c, 'sweep / postprocess of a valid input ended with an error exit: %s'
+                               % '; '.join(m for m in cap2.errors if 'rogress' not in m)[-300:], site=site_of(e)))
+            out['aborted'] = True
+        except Hang:
+            raise
+        except Exception as e:
+            V.append(violation('report-run-crashed', c, 'sweep / postprocess of a valid input raised %s: %s'
+                               % (type(e).__name__, str(e)[:200]), site=site_of(e)))
+            out['aborted'] = True
         with open(os.path.join(b.dir, 'dassh.out'), encoding='utf-8') as fh:
             out['text'] = fh.read()
+        if keep_csv:
+            out['csv'] = {}
+            for fn in sorted(os.listdir(b.dir)):
+                if fn.endswith('.csv') and not fn.startswith('power_'):
+                    with open(os.path.join(b.dir, fn)) as fh:
+                        out['csv'][fn] = fh.read()
+        out['log'] = list(cap2.errors)
     return out
 
 
@@ -1624,11 +1661,815 @@ def run_interasm(c):
 
 
 # ======================================================================
+# 6. csv dumps of the sweep ([Setup][[Dump]])  (C01 / C11 / C13 / C02 / C14 / C15)
+USYS = (('m', 'kelvin', 'kg/s'), ('cm', 'celsius', 'kg/s'), ('in', 'fahrenheit', 'lb/min'))
+DUMP_FLAGS = ('coolant', 'duct', 'pins', 'gap', 'gap_fine', 'average', 'maximum', 'pressure_drop')
+DUMP_L = 0.1
+FUELMODEL = {'clad_material': 'ht9_se2anl_425', 'gap_material': 'sodium_se2anl_425', 'gap_thickness': 0.0,
+             'r_frac': [0.0, 0.33333, 0.66667], 'pu_frac': [0.2, 0.2, 0.2], 'zr_frac': [0.1, 0.1, 0.1],
+             'porosity': [0.1, 0.1, 0.1]}
+PINMODEL = {'clad_material': 'ht9_se2anl_425', 'r_frac': [0.0, 0.33333, 0.66667],
+            'pin_material': ['ox1', 'ox2', 'ox3'], 'gap_material': 'sodium_se2anl_425', 'gap_thickness': 0.0001}
+PINMATS = {'ox1': {'thermal_conductivity': 3.0}, 'ox2': {'thermal_conductivity': 4.0},
+           'ox3': {'thermal_conductivity': 5.0}}
+# pin table columns as documented in region_rodded.make / dassh.plot._pin_cols
+PINCOL = {'coolant_pin': 3, 'clad_od': 4, 'clad_mw': 5, 'clad_id': 6, 'fuel_od': 7, 'fuel_cl': 8}
+INTERVALS = {'none': None, 'odd': 0.013, 'big': 0.25}
+
+
+def _dump_types(names):
+    """F: 2 rings + FuelModel; Q: 3 rings + PinModel (other duct mesh); D: double duct, flowing bypass;
+    M: un-rodded regions below (simple) and above (6-node) a 2-ring bundle; P: plain 3-ring bundle"""
+    t = {}
+    for nm in names:
+        if nm == 'F':
+            t[nm] = S.design(2, oftf=CORE_OFTF, fuelmodel=copy.deepcopy(FUELMODEL))
+        elif nm == 'Q':
+            t[nm] = S.design(3, oftf=CORE_OFTF, pd=1.15, pinmodel=copy.deepcopy(PINMODEL))
+        elif nm == 'D':
+            t[nm] = S.design(2, oftf=CORE_OFTF, ducts=2, duct_t=[0.0015, 0.002], byp_t=0.002, bypass_fraction=0.08)
+        elif nm == 'M':
+            t[nm] = S.design(2, oftf=CORE_OFTF,
+                             regions={'lower': {'z_lo': 0.0, 'z_hi': 0.025, 'vf_coolant': 0.3},
+                                      'upper': {'z_lo': 0.075, 'z_hi': DUMP_L, 'vf_coolant': 0.35, 'model': '6node'}})
+        elif nm == 'P':
+            t[nm] = S.design(3, oftf=CORE_OFTF, pd=1.25)
+        else:
+            raise ValueError(nm)
+    return t
+
+
+def _dump_scenario(c, tables=None):
+    names = c['layout'].split()
+    nring = {1: 1, 7: 2}[len(names)]
+    pos = S.core_positions(nring)
+    types = _dump_types([x for x in dict.fromkeys(names) if x != '-'])
+    assign, pw = [], {}
+    cells = [0.0, 0.04, DUMP_L]
+    for i, (nm, (rg, p)) in enumerate(zip(names, pos)):
+        if nm == '-':
+            continue
+        d = types[nm]
+        rings, nd = d['num_rings'], len(d['duct_ftf']) // 2
+        lvl = (1.6, 0.4, 1.2, 0.2, 1.0, 0.6, 1.4)[i % 7]
+        assign.append([nm, rg, p, {'flowrate': round(0.4 + 0.03 * i, 6)}])
+        pw[str(S.asm_id(rg, p) + 1)] = {'rings': rings, 'nduct': nd, 'cells': cells,
+                                        'q': 30000.0 * lvl * 7 / S.n_pins(rings), 'pins': 'asym', 'duct': 'uniform',
+                                        'cool': 'uniform', 'axial': ['up', 'mid'], 'seed': i, 'order': 2}
+    setup = {}
+    if c.get('flags') is not None:
+        dump = {}
+        if c['flags'] == 'all':
+            dump['all'] = True
+        else:
+            for k in c['flags'].split(','):
+                dump[k] = True
+        if INTERVALS[c.get('interval', 'none')] is not None:
+            dump['interval'] = INTERVALS[c['interval']]
+        setup['Dump'] = dump
+    if c.get('planes'):
+        setup['axial_plane'] = [float(x) for x in c['planes'].split(',')]
+    if tables:
+        setup['AssemblyTables'] = tables
+    gm = c.get('gap', 'flow')
+    scn = {'setup': setup, 'materials': copy.deepcopy(PINMATS) if 'Q' in types else None,
+           'core': {'inlet': T_IN, 'length': DUMP_L, 'pitch': round(CORE_OFTF + 0.004, 6), 'gap_model': gm,
+                    'bypass_fraction': 0.05 if gm != 'none' else 0.0, 'coolant': COOLANT},
+           'types': types, 'assign': assign, 'power': {'asm': pw}}
+    bounds = set(cells)
+    for d in types.values():
+        for reg in (d.get('AxialRegion') or {}).values():
+            bounds.update([reg['z_lo'], reg['z_hi']])
+    bounds.update(setup.get('axial_plane') or [])
+    return scn, sorted(bounds)
+
+
+class FieldRecorder(object):
+    """copies the in-memory fields of every assembly after every Assembly.calculate and the gap
+    coolant field after every Core.calculate_gap_temperatures (one entry per axial plane)"""
+
+    def __init__(self, rx):
+        self.rx = rx
+        self.asm = [[] for _ in rx.assemblies]
+        self.gap = []
+        self.inlet = []
+        for ai, a in enumerate(rx.assemblies):
+            self.inlet.append(self._fields(a, None))
+            self._wrap(ai, a)
+        core = rx.core
+        if core.model is not None:
+            orig = core.calculate_gap_temperatures
+            me = self
+
+            def calc(dz, t_duct):
+                orig(dz, t_duct)
+                me.gap.append(np.array(core.coolant_gap_temp, dtype=float, copy=True))
+            core.calculate_gap_temperatures = calc
+
+    @staticmethod
+    def _fields(a, t_gap):
+        reg = a.active_region
+        f = {'z': float(a.z), 'ridx': int(a.active_region_idx), 'rodded': bool(reg.is_rodded),
+             'cool': np.array(reg.temp['coolant_int'], dtype=float, copy=True),
+             'duct': np.array(reg.temp['duct_mw'], dtype=float, copy=True),
+             'byp': np.array(reg.temp['coolant_byp'], dtype=float, copy=True) if 'coolant_byp' in reg.temp else None,
+             'pins': None, 't_gap': None if t_gap is None else np.array(t_gap, dtype=float, copy=True)}
+        if hasattr(reg, 'pin_model'):
+            p = np.array(reg.pin_temps, dtype=float, copy=True)
+            p[:, 1] = f['z']                 # the height column is filled in on access in dassh
+            f['pins'] = p
+        # own averages: mass-flow weighted coolant (areas x flow split), area weighted duct walls
+        if reg.is_rodded:
+            m = O.sc_mass_flows(reg)
+            f['avg_int'] = float(np.dot(m, f['cool']) / np.sum(m))
+            f['nsc'] = len(m)
+        else:
+            f['avg_int'] = float(np.mean(f['cool']))
+            f['nsc'] = len(f['cool'])
+        f['avg_all'] = float(O.mixed_mean(reg)[0])
+        f['avg_byp'] = None
+        if f['byp'] is not None and reg.is_rodded and np.sum(reg.byp_flow_rate) > 0:
+            mb = O.byp_mass_flows(reg)
+            f['avg_byp'] = [float(np.dot(mb[i], f['byp'][i]) / np.sum(mb[i])) for i in range(len(mb))]
+        aw = np.asarray(reg.area['duct_mw'], dtype=float)
+        f['avg_duct'] = [float(np.dot(f['duct'][i], aw[i]) / np.sum(aw[i])) for i in range(f['duct'].shape[0])]
+        f['dp'] = float(sum(float(x.pressure_drop) for x in a.region))
+        f['dp_parts'] = {k: float(sum(float(x._pressure_drop.get(k, 0.0)) for x in a.region))
+                         for k in ('friction', 'spacer_grid', 'gravity')}
+        return f
+
+    def _wrap(self, ai, a):
+        orig = a.calculate
+        me = self
+
+        def calc(dz, t_gap, h_gap, *args, **kw):
+            orig(dz, t_gap, h_gap, *args, **kw)
+            me.asm[ai].append(me._fields(a, t_gap))
+        a.calculate = calc
+
+
+def expected_dump_planes(zs, interval, bounds):
+    """plane indices (1-based along zs[1:]) the interval rule promises: every plane without an interval;
+    otherwise the first plane at which the distance swept since the last interval dump reaches the interval
+    (9 decimals, as documented by the rounding in the code), and every mandatory plane (power-cell and
+    region boundaries, requested axial planes, core end)"""
+    out = []
+    acc = 0.0
+    bset = [round(b, 12) for b in bounds]
+    for k in range(1, len(zs)):
+        acc += zs[k] - zs[k - 1]
+        if interval is None:
+            out.append(k)
+        elif round(acc, 9) >= interval:
+            out.append(k)
+            acc = 0.0
+        elif any(abs(zs[k] - b) <= 1e-12 for b in bset):
+            out.append(k)
+    return out
+
+
+def parse_csv(text):
+    rows = []
+    for ln in text.split('\n'):
+        if ln.strip() == '':
+            continue
+        rows.append([float(x) for x in ln.split(',')])
+    return rows
+
+
+DUMP_FILES = {'coolant': ['temp_coolant_int.csv'], 'duct': ['temp_duct_mw.csv'], 'pins': ['temp_pin.csv'],
+              'gap': ['temp_coolant_gap.csv'], 'gap_fine': ['temp_coolant_gap_finemesh.csv'],
+              'average': ['temp_average.csv'], 'maximum': ['temp_maximum.csv'], 'pressure_drop': ['pressure_drop.csv']}
+DUMP_PROP = {'temp_coolant_int.csv': 'C01', 'temp_coolant_byp.csv': 'C01', 'temp_duct_mw.csv': 'C11',
+             'temp_pin.csv': 'C13', 'temp_coolant_gap.csv': 'C02', 'temp_coolant_gap_finemesh.csv': 'C02',
+             'temp_coolant_gap_fine.csv': 'C02', 'temp_average.csv': 'C15', 'temp_maximum.csv': 'C15',
+             'pressure_drop.csv': 'C14'}
+
+
+class CsvChecker(object):
+    def __init__(self, c, V):
+        self.c = c
+        self.V = V
+        self.cells = 0
+        self.seen = set()
+
+    def bad(self, kind, fname, what, obs=None, exp=None, tol=None, site='assembly.py:Assembly.write', **fields):
+        key = (kind, fname)
+        if key in self.seen:
+            return
+        self.seen.add(key)
+        self.V.append(violation('report-dumps-' + kind, dict(self.c, file=fname, prop=DUMP_PROP.get(fname, 'C15'), **fields),
+                                '%s: %s' % (fname, what), obs, exp, tol, site=site))
+
+    def rows(self, fname, got, want, labels, kind='row', tol=None, site='assembly.py:Assembly.write'):
+        """got / want: lists of float rows in file order; labels: (plane, asm, ...) per expected row"""
+        if len(got) != len(want):
+            self.bad(kind + '-count', fname, 'number of rows', len(got), len(want), site=site)
+        for i in range(min(len(got), len(want))):
+            g, w = got[i], want[i]
+            self.cells += len(w)
+            if len(g) != len(w):
+                self.bad(kind + '-width', fname, 'row %d %s: number of columns' % (i, labels[i]), len(g), len(w), site=site)
+                return
+            for j in range(len(w)):
+                t = 0.0 if tol is None else tol[i][j]
+                if not (abs(g[j] - w[j]) <= t):
+                    what = {0: 'assembly id', 1: 'height', 2: 'region index'}.get(j, 'value')
+                    self.bad(kind + ('-id' if j == 0 else '-height' if j == 1 else ''), fname,
+                             'row %d %s, column %d (%s) is not the recorded %s of that assembly at that plane'
+                             % (i, labels[i], j, what, what), g[j], w[j], t, site=site, column=j)
+                    return
+
+
+def cases_dumps(tier):
+    out = []
+    single = ['F', 'Q', 'D', 'M']
+    cores = ['F Q D M - F Q', 'Q - D F M P -', 'P P P P P P P']
+    i = 0
+
+    def add(layout, flags, interval, planes=None, gap='flow'):
+        L, T, M = USYS[len(out) % 3]
+        out.append({'probe': 'report-dumps', 'layout': layout, 'flags': flags, 'interval': interval, 'planes': planes,
+                    'gap': gap, 'L': L, 'T': T, 'M': M})
+    if tier == 'quick':
+        for lay in single + cores[:2]:
+            for iv in ('none', 'odd', 'big'):
+                add(lay, 'all', iv, '0.0333' if iv != 'none' else None)
+        for k, fl in enumerate(DUMP_FLAGS):
+            add(single[k % 4], fl, ('none', 'odd')[k % 2])
+            add(cores[k % 2], fl, ('odd', 'none', 'big')[k % 3], '0.0333,0.0612')
+        add('F', ','.join(DUMP_FLAGS), 'none')
+        add(cores[0], ','.join(DUMP_FLAGS), 'odd', '0.05')
+        add('F', 'all', 'odd', None, 'none')
+        add(cores[2], 'coolant,average', 'none')
+    else:
+        for lay in single + cores:
+            for iv in INTERVALS:
+                for planes in (None, '0.0333', '0.0333,0.0612'):
+                    for u in range(3):
+                        add(lay, 'all', iv, planes)
+                        out[-1]['L'], out[-1]['T'], out[-1]['M'] = USYS[u]
+        for fl in DUMP_FLAGS + (','.join(DUMP_FLAGS), 'coolant,pins', 'duct,gap', 'average,maximum'):
+            for lay in single + cores[:2]:
+                for iv in INTERVALS:
+                    add(lay, fl, iv, '0.0333')
+        for lay in ('F', cores[0]):
+            for iv in INTERVALS:
+                add(lay, 'all', iv, None, 'none')
+    return out
+
+
+def _pad(vals, width):
+    return list(vals) + [0.0] * (width - len(vals))
+
+
+def run_dumps(c):
+    import dassh
+    r = new_result()
+    V = r['violations']
+    scn, bounds = _dump_scenario(c)
+    out = execute(to_units(scn, c['L'], c['T'], c['M']), c, V, record=FieldRecorder, keep_csv=True)
+    if out is None or out.get('aborted'):
+        r['outcome'] = 'rejected'
+        return r
+    rx, rec, files = out['rx'], out['rec'], out['csv']
+    ck = CsvChecker(c, V)
+    nasm = len(rx.assemblies)
+    zs = [float(x) for x in rx.z]
+    nstep = len(zs) - 1
+    if any(len(x) != nstep for x in rec.asm) or (rx.core.model is not None and len(rec.gap) != nstep):
+        ck.bad('harness', '-', 'recorder saw %s planes of %d' % ([len(x) for x in rec.asm], nstep))
+        return _finish(r, c, V, 0, nstep, 'dumps')
+    flags = list(DUMP_FLAGS) if c['flags'] == 'all' else c['flags'].split(',')
+    interval = INTERVALS[c['interval']]
+    planes = expected_dump_planes(zs, interval, bounds)
+    ids = [S.asm_id(a[1], a[2]) for a in scn['assign']]
+    any_byp = any(len(d['duct_ftf']) > 2 for d in scn['types'].values())
+    # ---- the set of files
+    want_files = []
+    for fl in flags:
+        want_files += DUMP_FILES[fl]
+        if fl == 'coolant' and any_byp:
+            want_files.append('temp_coolant_byp.csv')
+    if 'gap_fine' in flags and 'temp_coolant_gap_finemesh.csv' not in files and 'temp_coolant_gap_fine.csv' in files:
+        msg = [m for m in out['log'] if 'fine mesh' in m]
+        ck.bad('file-name', 'temp_coolant_gap_fine.csv', 'the run announces "temp_coolant_gap_finemesh.csv" for the '
+               'fine-mesh gap temperatures but writes another file name', 'temp_coolant_gap_fine.csv',
+               msg[0] if msg else 'temp_coolant_gap_finemesh.csv', site='reactor.py:_data_setup')
+        want_files[want_files.index('temp_coolant_gap_finemesh.csv')] = 'temp_coolant_gap_fine.csv'
+    got_files = sorted(files)
+    ck.cells += len(want_files)
+    if got_files != sorted(want_files):
+        ck.bad('file-set', '-', 'csv files written are not those the [[Dump]] flags ask for', got_files, sorted(want_files),
+               site='reactor.py:_data_setup')
+    tz = 1e-12        # plane heights are rounded to 12 decimals by the solver
+
+    def tols(rows, rel_from=None):
+        out_ = []
+        for w in rows:
+            t = [0.0] * len(w)
+            t[1] = tz
+            if rel_from is not None:
+                for j in range(rel_from, len(w)):
+                    t[j] = 256 * EPS * abs(w[j])      # own averages: sums of <= 64 products (4 n eps)
+            out_.append(t)
+        return out_
+
+    def per_asm(build, width):
+        want, labels = [], []
+        for k in planes:
+            for ai in range(nasm):
+                f = rec.asm[ai][k - 1]
+                for sub, vals in build(ai, f, k):
+                    want.append(_pad([float(ids[ai]), zs[k], float(f['ridx'])] + vals, width))
+                    labels.append('(plane %d z=%.6f, assembly %d%s)' % (k, zs[k], ai + 1, sub))
+        return want, labels
+    allf = [f for x in rec.asm for f in x]
+    # ---- interior coolant
+    if 'temp_coolant_int.csv' in files:
+        w = 3 + max(len(f['cool']) for f in allf)
+        want, lab = per_asm(lambda ai, f, k: [('', [float(x) for x in f['cool']])], w)
+        ck.rows('temp_coolant_int.csv', parse_csv(files['temp_coolant_int.csv']), want, lab, tol=tols(want))
+    if 'temp_duct_mw.csv' in files:
+        w = 4 + max(f['duct'].shape[1] for f in allf)
+        want, lab = per_asm(lambda ai, f, k: [(' wall %d' % i, [float(i)] + [float(x) for x in f['duct'][i]])
+                                              for i in range(f['duct'].shape[0])], w)
+        ck.rows('temp_duct_mw.csv', parse_csv(files['temp_duct_mw.csv']), want, lab, tol=tols(want))
+    if 'temp_coolant_byp.csv' in files:
+        w = 4 + max([f['byp'].shape[1] for f in allf if f['byp'] is not None] or [0])
+        want, lab = per_asm(lambda ai, f, k: [] if f['byp'] is None else
+                            [(' gap %d' % i, [float(i)] + [float(x) for x in f['byp'][i]])
+                             for i in range(f['byp'].shape[0])], w)
+        ck.rows('temp_coolant_byp.csv', parse_csv(files['temp_coolant_byp.csv']), want, lab, tol=tols(want))
+    if 'temp_pin.csv' in files:
+        want, lab = [], []
+        for k in planes:
+            for ai in range(nasm):
+                f = rec.asm[ai][k - 1]
+                if f['pins'] is None:
+                    continue
+                for row in f['pins']:
+                    rw = [float(x) for x in row]
+                    rw[0], rw[1] = float(ids[ai]), zs[k]
+                    want.append(rw)
+                    lab.append('(plane %d z=%.6f, assembly %d, pin %d)' % (k, zs[k], ai + 1, int(row[2])))
+                if any(float(x) != float(ids[ai]) for x in f['pins'][:, 0]):
+                    ck.bad('row-id', 'temp_pin.csv', 'pin table of assembly %d in memory carries another id' % (ai + 1),
+                           float(f['pins'][0, 0]), float(ids[ai]), site='assembly.py:Assembly.clone')
+        ck.rows('temp_pin.csv', parse_csv(files['temp_pin.csv']), want, lab, tol=tols(want), site='assembly.py:pin_temp_array')
+    if 'temp_average.csv' in files:
+        def avg(ai, f, k):
+            v = [f['avg_int'], 0.0 if f['avg_byp'] is None else f['avg_byp'][0], f['avg_all'], f['avg_duct'][0],
+                 f['avg_duct'][-1], 0.0, 0.0]
+            if f['pins'] is not None:
+                v[5] = float(np.mean(f['pins'][:, PINCOL['clad_mw']]))
+                v[6] = float(np.mean(f['pins'][:, PINCOL['fuel_cl']]))
+            return [('', v)]
+        want, lab = per_asm(avg, 10)
+        got = parse_csv(files['temp_average.csv'])
+        # classify two column-specific mismatches before the generic comparison
+        for g, w_, lb in zip(got, want, lab):
+            if len(g) == 10 and w_[4] != 0.0 and g[4] == 0.0:
+                ck.bad('average-bypass-empty', 'temp_average.csv', 'row %s: column 4 (between the interior-coolant and '
+                       'the overall coolant average) is 0 although the assembly has a flowing bypass gap' % lb, g[4], w_[4])
+                for w2 in want:
+                    w2[4] = 0.0
+                break
+        for g, w_, lb in zip(got, want, lab):
+            if len(g) == 10 and w_[8] != 0.0 and abs(g[8] - w_[8]) > 256 * EPS * w_[8]:
+                ai = int(lb.split('assembly ')[1].rstrip(')')) - 1
+                k = int(lb.split('plane ')[1].split()[0])
+                f = rec.asm[ai][k - 1]
+                alt = {nm: float(np.mean(f['pins'][:, col])) for nm, col in PINCOL.items()}
+                hit = [nm for nm, x in alt.items() if abs(g[8] - x) <= 256 * EPS * x]
+                ck.bad('average-clad-column', 'temp_average.csv', 'row %s: column 8 is documented in Assembly.write as the '
+                       'average clad MID-WALL temperature; it equals the mean of %s' % (lb, hit or 'no pin column'),
+                       g[8], w_[8], 256 * EPS * w_[8], pin_column=(hit or ['?'])[0])
+                if hit:
+                    for w2, lb2 in zip(want, lab):
+                        a2 = int(lb2.split('assembly ')[1].rstrip(')')) - 1
+                        k2 = int(lb2.split('plane ')[1].split()[0])
+                        f2 = rec.asm[a2][k2 - 1]
+                        if f2['pins'] is not None:
+                            w2[8] = float(np.mean(f2['pins'][:, PINCOL[hit[0]]]))
+                break
+        ck.rows('temp_average.csv', got, want, lab, kind='average', tol=tols(want, 3))
+    if 'temp_maximum.csv' in files:
+        def mx(ai, f, k):
+            v = [float(np.max(f['cool'])), float(np.max(f['duct'])), 0.0, 0.0]
+            if f['pins'] is not None:
+                v[2] = float(np.max(f['pins'][:, PINCOL['clad_mw']]))
+                v[3] = float(np.max(f['pins'][:, PINCOL['fuel_cl']]))
+            return [('', v)]
+        want, lab = per_asm(mx, 7)
+        got = parse_csv(files['temp_maximum.csv'])
+        for g, w_, lb in zip(got, want, lab):
+            ai = int(lb.split('assembly ')[1].rstrip(')')) - 1
+            k = int(lb.split('plane ')[1].split()[0])
+            f = rec.asm[ai][k - 1]
+            if len(g) == 7 and g[4] != w_[4] and g[4] == float(np.max(f['duct'][0])):
+                ck.bad('maximum-duct-inner-wall-only', 'temp_maximum.csv', 'row %s: the duct column holds the maximum of the '
+                       'innermost wall only; another wall of the assembly is hotter' % lb, g[4], w_[4])
+                for w2, lb2 in zip(want, lab):
+                    a2 = int(lb2.split('assembly ')[1].rstrip(')')) - 1
+                    k2 = int(lb2.split('plane ')[1].split()[0])
+                    w2[4] = float(np.max(rec.asm[a2][k2 - 1]['duct'][0]))
+                break
+        for g, w_, lb in zip(got, want, lab):
+            ai = int(lb.split('assembly ')[1].rstrip(')')) - 1
+            k = int(lb.split('plane ')[1].split()[0])
+            f = rec.asm[ai][k - 1]
+            if len(g) == 7 and f['pins'] is not None and g[5] != w_[5]:
+                hit = [nm for nm, col in PINCOL.items() if g[5] == float(np.max(f['pins'][:, col]))]
+                ck.bad('maximum-clad-column', 'temp_maximum.csv', 'row %s: column 5 is documented in Assembly.write as the '
+                       'maximum clad MID-WALL temperature; it equals the maximum of %s' % (lb, hit or 'no pin column'),
+                       g[5], w_[5], 0.0, pin_column=(hit or ['?'])[0])
+                if hit:
+                    for w2, lb2 in zip(want, lab):
+                        a2 = int(lb2.split('assembly ')[1].rstrip(')')) - 1
+                        k2 = int(lb2.split('plane ')[1].split()[0])
+                        f2 = rec.asm[a2][k2 - 1]
+                        if f2['pins'] is not None:
+                            w2[5] = float(np.max(f2['pins'][:, PINCOL[hit[0]]]))
+                break
+        ck.rows('temp_maximum.csv', got, want, lab, kind='maximum', tol=tols(want))
+    if 'pressure_drop.csv' in files:
+        want, lab = per_asm(lambda ai, f, k: [('', [f['dp'], f['dp_parts']['friction'], f['dp_parts']['spacer_grid'],
+                                                    f['dp_parts']['gravity']])], 7)
+        got = parse_csv(files['pressure_drop.csv'])
+        ck.rows('pressure_drop.csv', got, want, lab, kind='pressure', tol=tols(want, 3))
+        for g, lb in zip(got, lab):
+            if len(g) == 7 and abs(g[3] - (g[4] + g[5] + g[6])) > 256 * EPS * abs(g[3]):
+                ck.bad('pressure-parts', 'pressure_drop.csv', 'row %s: friction + spacer grid + gravity != total' % lb,
+                       g[4] + g[5] + g[6], g[3], 256 * EPS * abs(g[3]))
+                break
+    core = rx.core
+    if core.model is not None:
+        fine = 'temp_coolant_gap_finemesh.csv' if 'temp_coolant_gap_finemesh.csv' in files else 'temp_coolant_gap_fine.csv'
+        if fine in files:
+            want = [[zs[k]] + [float(x) for x in rec.gap[k - 1]] for k in planes]
+            lab = ['(plane %d z=%.6f)' % (k, zs[k]) for k in planes]
+            tl_ = [[tz] + [0.0] * (len(w_) - 1) for w_ in want]
+            got = parse_csv(files[fine])
+            # the height is column 0 in this file
+            ck.rows(fine, [[0.0] + g for g in got], [[0.0] + w_ for w_ in want], lab, kind='gapfine',
+                    tol=[[0.0] + t for t in tl_], site='reactor.py:axial_step')
+        if 'temp_coolant_gap.csv' in files:
+            mf = dassh.mesh_functions
+            h = np.asarray(core.coolant_gap_params['htc'], dtype=float)
+
+            def on_duct_mesh(ai, Tg, f):
+                reg = rx.assemblies[ai].region[f['ridx']]
+                adj = core._asm_sc_adj[ai]
+                hh = h[adj - 1].flatten()
+                tt = np.asarray(Tg)[adj - 1].flatten()
+                num = mf.map_across_gap(hh * tt, reg._map['gap2duct'])
+                den = mf.map_across_gap(hh, reg._map['gap2duct'])
+                return [float(x) for x in num / den]
+            w = 3 + max(f['duct'].shape[1] for f in allf)
+            uniform = [np.full(core.n_sc, T_IN)]
+            now, lab = per_asm(lambda ai, f, k: [('', on_duct_mesh(ai, rec.gap[k - 1], f))], w)
+            below, _ = per_asm(lambda ai, f, k: [('', on_duct_mesh(ai, (uniform + rec.gap)[k - 1], f))], w)
+            got = parse_csv(files['temp_coolant_gap.csv'])
+            tl_ = [[0.0, tz, 0.0] + [1e-12 * abs(x) for x in w_[3:]] for w_ in now]     # mapping arithmetic
+            n_now = sum(1 for g, w_, t in zip(got, now, tl_) if len(g) == len(w_)
+                        and all(abs(a_ - b_) <= t_ for a_, b_, t_ in zip(g, w_, t)))
+            n_bel = sum(1 for g, w_, t in zip(got, below, tl_) if len(g) == len(w_)
+                        and all(abs(a_ - b_) <= t_ for a_, b_, t_ in zip(g, w_, t)))
+            if len(got) == len(now) and n_bel == len(got) and n_now < len(got):
+                ck.cells += sum(len(w_) for w_ in now)
+                ck.bad('gap-one-plane-below', 'temp_coolant_gap.csv', 'every row carries the height of plane k but the gap '
+                       'coolant temperatures of plane k-1 (the boundary condition handed to Assembly.calculate); '
+                       'temp_coolant_gap_fine*.csv has the temperatures of plane k at the same height',
+                       [round(x, 6) for x in got[-1][3:6]], [round(x, 6) for x in now[-1][3:6]],
+                       site='reactor.py:_calculate_asm_temperatures', rows_matching_plane_k=n_now,
+                       rows_matching_plane_below=n_bel)
+            else:
+                ck.rows('temp_coolant_gap.csv', got, now, lab, kind='gap', tol=tl_,
+                        site='reactor.py:_calculate_asm_temperatures')
+    r = _finish(r, c, V, ck.cells, nstep * nasm, 'dumps')
+    r['extra']['dump_planes'] = {('all' if len(planes) == nstep else 'some'): 1}
+    r['info']['planes_dumped'] = len(planes)
+    r['info']['planes'] = nstep
+    return r
+
+
+# ======================================================================
+# 7. [Setup][[AssemblyTables]]  (C15)
+TABLE_TYPES = ('coolant_subchannel', 'duct_mw', 'coolant_bypass', 'coolant_pin', 'clad_od', 'clad_mw', 'clad_id',
+               'fuel_od', 'fuel_cl')
+# axial position sets (m): mandatory planes (power-cell boundary, requested plane, core end), between planes,
+# the inlet plane, the core end
+ZSETS = {'planes': [0.04, 0.0333], 'between': [0.05, 0.0777], 'zero': [0.0], 'top': [DUMP_L],
+         'mixed': [0.0612, 0.04, 0.0123]}
+ASM_CORE = 'F Q D M - F Q'
+
+
+def cases_asmtables(tier):
+    out = []
+
+    def add(layout, types, asms, zset, interval='none'):
+        L, T, M = USYS[len(out) % 3]
+        out.append({'probe': 'report-asmtables', 'layout': layout, 'types': types, 'asms': asms, 'zset': zset,
+                    'interval': interval, 'planes': '0.0333', 'gap': 'flow', 'flags': None, 'L': L, 'T': T, 'M': M})
+    pin_types = ','.join(TABLE_TYPES[3:])
+    if tier == 'quick':
+        for zs_ in ZSETS:
+            for tp in TABLE_TYPES:
+                add('F', tp, '1', zs_)
+            add('D', 'coolant_subchannel,duct_mw,coolant_bypass', '1', zs_)
+            add('M', 'coolant_subchannel,duct_mw', '1', zs_)
+            add(ASM_CORE, 'coolant_subchannel,duct_mw', '1,2', zs_)
+            add(ASM_CORE, 'coolant_subchannel,duct_mw', '3,4', zs_)
+            add(ASM_CORE, 'coolant_subchannel,duct_mw,' + pin_types, '6,7', zs_)
+            add(ASM_CORE, pin_types, '1,2', zs_, 'odd')
+        add(ASM_CORE, 'coolant_subchannel,duct_mw', '6', 'planes')       # the id after the vacancy that is still a list index
+        add('F', ','.join(TABLE_TYPES), '1', 'between', 'odd')
+        add('F', ','.join(TABLE_TYPES), '1', 'mixed', 'big')
+    else:
+        for zs_ in ZSETS:
+            for iv in INTERVALS:
+                for u in range(3):
+                    for lay, asms in (('F', '1'), ('Q', '1'), ('D', '1'), ('M', '1'), (ASM_CORE, '1,2'), (ASM_CORE, '3,4'),
+                                      (ASM_CORE, '6,7'), (ASM_CORE, '7,1,4'), ('Q - D F M P -', '3,4,5,6')):
+                        add(lay, ','.join(TABLE_TYPES), asms, zs_, iv)
+                        out[-1]['L'], out[-1]['T'], out[-1]['M'] = USYS[u]
+                    for tp in TABLE_TYPES:
+                        add('F', tp, '1', zs_, iv)
+                        out[-1]['L'], out[-1]['T'], out[-1]['M'] = USYS[u]
+    return out
+
+
+def _interp_fields(rec_planes, inlet, zs, dumped, z, key):
+    """field `key` of one assembly at height z: the dumped plane itself if z is one (1e-12), the last
+    dumped plane if z lies above it, else the linear interpolation between the dumped planes that bracket z
+    (the inlet plane z = 0 brackets from below).  Returns (array, tolerance array, (k1, k2))"""
+    hs = [zs[k] for k in dumped]
+    for i, k in enumerate(dumped):
+        if abs(zs[k] - z) <= 1e-12:
+            v = np.atleast_1d(np.asarray(key(rec_planes[k - 1]), dtype=float))
+            tol = 8 * EPS * np.abs(v)
+            # a requested height that differs from the plane by the rounding of the unit conversion (<= 1e-12 m)
+            # is interpolated with a weight of that size towards the neighbouring dumped plane
+            for k2 in ([dumped[i - 1]] if i > 0 else []) + ([dumped[i + 1]] if i + 1 < len(dumped) else []):
+                v2 = np.atleast_1d(np.asarray(key(rec_planes[k2 - 1]), dtype=float))
+                if v2.shape == v.shape:
+                    tol = np.maximum(tol, 8 * EPS * np.abs(v) + 2e-12 / abs(zs[k2] - zs[k]) * np.abs(v2 - v))
+            return v, tol, (k, k)
+    if z > hs[-1]:
+        v = np.atleast_1d(np.asarray(key(rec_planes[dumped[-1] - 1]), dtype=float))
+        return v, 8 * EPS * np.abs(v), (dumped[-1], dumped[-1])
+    hi = min(k for k in dumped if zs[k] > z)
+    lo_c = [k for k in dumped if zs[k] < z]
+    if lo_c:
+        lo = max(lo_c)
+        z1, f1 = zs[lo], rec_planes[lo - 1]
+    else:
+        lo, z1, f1 = 0, 0.0, inlet
+    z2, f2 = zs[hi], rec_planes[hi - 1]
+    a1 = np.atleast_1d(np.asarray(key(f1), dtype=float))
+    a2 = np.atleast_1d(np.asarray(key(f2), dtype=float))
+    if a1.shape != a2.shape:
+        return None, None, (lo, hi)
+    x = (z2 - z) / (z2 - z1)
+    v = a1 * x + a2 * (1.0 - x)
+    tol = 8 * EPS * np.abs(v) + 2e-12 / (z2 - z1) * np.abs(a2 - a1)
+    return v, tol, (lo, hi)
+
+
+def _read_table(text):
+    return [ln.split(',') for ln in text.split('\n') if ln.strip() != '']
+
+
+def run_asmtables(c):
+    r = new_result()
+    V = r['violations']
+    types = c['types'].split(',')
+    asms = [int(x) for x in c['asms'].split(',')]
+    zreq = list(ZSETS[c['zset']])
+    tables = {}
+    for i, tp in enumerate(types):
+        tables['tab%d' % i] = {'type': tp, 'assemblies': list(asms), 'axial_positions': list(zreq)}
+    cc = dict(c)
+    if c['interval'] != 'none':
+        cc['flags'] = 'average'          # a [[Dump]] section is needed to carry the interval
+    scn, bounds = _dump_scenario(cc, tables=tables)
+    out = execute(to_units(scn, c['L'], c['T'], c['M']), c, V, record=FieldRecorder, keep_csv=True)
+    if out is None:
+        r['outcome'] = 'rejected'
+        return r
+    if out.get('aborted'):
+        V[-1]['kind'] = V[-1]['kind'].replace('report-run-', 'report-asmtables-')
+        V[-1]['scenario'] = dict(c, prop='C15', below_first_plane=min(zreq) == 0.0,
+                                 id_after_vacancy=any(a_ > 5 for a_ in asms) and '-' in c['layout'].split())
+        r['outcome'] = 'aborted'
+        return _finish(r, c, V, 0, 0, 'asmtables')
+    rx, rec, files = out['rx'], out['rec'], out['csv']
+    ck = CsvChecker(c, V)
+    site = 'reactor.py:write_assembly_data_tables'
+    zs = [float(x) for x in rx.z]
+    nstep = len(zs) - 1
+    dumped = expected_dump_planes(zs, INTERVALS[c['interval']], bounds)
+    pos_ids = [S.asm_id(a[1], a[2]) + 1 for a in scn['assign']]        # ids as in the input (position ids, base 1)
+    zsorted = sorted(zreq)
+    ncell = 0
+
+    def bad(kind, fname, what, obs=None, exp=None, tol=None, **f):
+        ck.bad(kind, fname, what, obs, exp, tol, site=site, **f)
+        V[-1]['kind'] = V[-1]['kind'].replace('report-dumps-', 'report-asmtables-')
+
+    def check_head(fname, tab, ncol0, lab0, lab1):
+        hdr = tab[0]
+        if hdr[:ncol0] != lab0 or tab[1][:ncol0] != lab1:
+            bad('labels', fname, 'label cells of the first two rows', [hdr[:ncol0], tab[1][:ncol0]], [lab0, lab1])
+        zz = [float(x) for x in hdr[ncol0:]]
+        cols = []
+        for z in zsorted:
+            hit = [j for j, x in enumerate(zz) if abs(x - z) <= 1e-12]
+            if not hit:
+                bad('heights', fname, 'heights of the columns are not the requested axial positions in metres, ascending',
+                    zz, zsorted, 1e-12)
+                return None
+            cols.append(hit[0])
+        if len(zz) != len(zsorted):
+            bad('heights-duplicated', fname, 'every requested height appears %d times (once per requested assembly)'
+                % (len(zz) // max(len(zsorted), 1)), zz, zsorted, 1e-12, n_assemblies=len(asms))
+        return cols
+
+    def check_col(fname, got, want, tol, what, kind_sfx='', **f):
+        nonlocal ncell
+        ncell += len(want)
+        if len(got) != len(want):
+            bad('shape', fname, '%s: number of rows' % what, len(got), len(want), **f)
+            return
+        for j in range(len(want)):
+            if not (abs(got[j] - want[j]) <= tol[j]):
+                bad('value' + kind_sfx, fname, '%s, row %d: not the recorded field of the requested assembly at that height'
+                    % (what, j), got[j], float(want[j]), float(tol[j]), **f)
+                return
+
+    want_files = set()
+    unchecked = 0
+
+    def table_of(fname, alt=None):
+        want_files.add(fname)
+        if fname in files:
+            return fname, _read_table(files[fname])
+        if alt and alt in files:
+            bad('file-name', alt, 'table of wall %s of a multi-duct assembly is written under a name that chains the '
+                'names of the inner walls' % fname.split('duct=')[1][0], alt, fname)
+            want_files.discard(fname)
+            want_files.add(alt)
+            return alt, _read_table(files[alt])
+        return fname, None
+
+    for tp in types:
+        for aid in asms:
+            if aid not in pos_ids:
+                continue
+            ai = pos_ids.index(aid)
+            a = rx.assemblies[ai]
+            name = scn['assign'][ai][0]
+            planes = rec.asm[ai]
+            inlet = rec.inlet[ai]
+            f0 = dict(asm_id=aid, asm_type=name, table_type=tp)
+
+            def sfx(br):
+                return '-below-first-plane' if br[0] == 0 and br[1] != 0 else ''
+            if tp == 'coolant_bypass':
+                continue            # accepted by the input template, announced as "not yet implemented": no file
+            if tp in PINCOL:
+                if name not in ('F', 'Q'):
+                    continue        # no pin model: the request is dropped with a warning
+                fname, tab = table_of('temp_%s_a=%d.csv' % (tp, aid))
+                if tab is None:
+                    continue
+                cols = check_head(fname, tab, 2, ['---', 'z (m)'], ['x (m)', 'y (m) \\ avg'])
+                if cols is None:
+                    continue
+                xy = np.asarray(a.rodded.pin_lattice.xy, dtype=float)
+                got_xy = [[float(row[0]), float(row[1])] for row in tab[2:]]
+                if len(got_xy) != len(xy) or np.max(np.abs(np.asarray(got_xy) - xy)) > 0.0:
+                    bad('xy', fname, 'pin positions', got_xy[:2], xy[:2].tolist(), **f0)
+                for j, z in enumerate(zsorted):
+                    if z < zs[dumped[0]] - 1e-12:
+                        unchecked += 1      # pin temperatures are not defined on the inlet plane: no own value
+                        continue
+                    v, tol, br = _interp_fields(planes, inlet, zs, dumped, z,
+                                                lambda f, _c=PINCOL[tp]: f['pins'][:, _c])
+                    got = [float(row[2 + cols[j]]) for row in tab[2:]]
+                    check_col(fname, got, v, tol, 'z=%.6f (planes %s)' % (z, br), z=z, **f0)
+                    ga = float(tab[1][2 + cols[j]])
+                    ncell += 1
+                    if abs(ga - float(np.mean(v))) > 64 * EPS * abs(ga) + float(np.max(tol)):
+                        bad('average', fname, 'z=%.6f: average cell is not the mean of the column' % z, ga,
+                            float(np.mean(v)), **f0)
+            elif tp == 'coolant_subchannel':
+                fname, tab = table_of('temp_coolant_subchannel_a=%d.csv' % aid)
+                if tab is None:
+                    continue
+                cols = check_head(fname, tab, 3, ['---', '---', 'z (m)'], ['x (m)', 'y (m)', 'average'])
+                if cols is None:
+                    continue
+                nsc = a.rodded.subchannel.n_sc['coolant']['total']
+                xy = np.asarray(a.rodded.subchannel.xy[:nsc], dtype=float)
+                got_xy = np.asarray([[float(row[0]), float(row[1])] for row in tab[2:]])
+                kinds = [['interior', 'edge', 'corner'][t] for t in a.rodded.subchannel.type[:nsc]]
+                if got_xy.shape != xy.shape or np.max(np.abs(got_xy - xy)) > 0.0 or [row[2] for row in tab[2:]] != kinds:
+                    bad('xy', fname, 'subchannel positions / kinds', None, None, **f0)
+                for j, z in enumerate(zsorted):
+                    va, tola, br = _interp_fields(planes, inlet, zs, dumped, z, lambda f: f['avg_int'])
+                    ncell += 1
+                    ga = float(tab[1][3 + cols[j]])
+                    if va is not None and abs(ga - va[0]) > tola[0] + 256 * EPS * abs(va[0]):
+                        bad('average' + sfx(br), fname, 'z=%.6f (planes %s): average cell is not the flow-weighted mean '
+                            'interior coolant temperature at that height' % (z, br), ga, float(va[0]), float(tola[0]),
+                            z=z, **f0)
+                    # the bundle's subchannel rows stay empty (0) where the assembly is not a pin bundle
+                    v, tol, br = _interp_fields(planes, inlet, zs, dumped, z,
+                                                lambda f: f['cool'] if f['rodded'] else np.zeros(nsc))
+                    if v is None:
+                        continue
+                    got = [float(row[3 + cols[j]]) for row in tab[2:]]
+                    lo_f = inlet if br[0] == 0 else planes[br[0] - 1]
+                    hi_f = planes[br[1] - 1]
+                    nn = max([len(f_['cool']) for f_ in (lo_f, hi_f) if not f_['rodded']] or [0])
+                    alt = None
+                    if nn > 1:
+                        alt = _interp_fields(planes, inlet, zs, dumped, z, lambda f: f['cool'] if f['rodded'] else
+                                             np.concatenate([f['cool'], np.zeros(nsc - len(f['cool']))]))
+                    if alt is not None and alt[0] is not None and len(got) == nsc \
+                            and np.all(np.abs(np.asarray(got) - alt[0]) <= alt[1]) \
+                            and np.any(np.abs(np.asarray(got) - v) > tol):
+                        bad('lowfi-nodes-in-subchannel-rows', fname, 'z=%.6f lies in an un-rodded region with %d coolant '
+                            'nodes: their temperatures are written into the rows of the first %d pin-bundle subchannels '
+                            '(the code documents "no subchannel data for low-fidelity regions")'
+                            % (z, nn, nn), got[:7], [float(x) for x in v[:7]], z=z, **f0)
+                        continue
+                    check_col(fname, got, v, tol, 'z=%.6f (planes %s)' % (z, br), z=z, kind_sfx=sfx(br), **f0)
+            elif tp == 'duct_mw':
+                nd = a.rodded.n_duct
+                ncell_d = a.rodded.subchannel.n_sc['duct']['total']
+                chain = 'temp_duct_mw_a=%d' % aid
+                for d in range(nd):
+                    chain += '_duct=%d.csv' % (d + 1)
+                    if nd == 1:
+                        fname, tab = table_of('temp_duct_mw_a=%d.csv' % aid)
+                    else:
+                        fname, tab = table_of('temp_duct_mw_a=%d_duct=%d.csv' % (aid, d + 1), alt=chain)
+                    if tab is None:
+                        continue
+                    cols = check_head(fname, tab, 3, ['---', '---', 'z (m)'], ['x (m)', 'y (m)', 'average'])
+                    if cols is None:
+                        continue
+                    for j, z in enumerate(zsorted):
+                        def wall(f, _d=d):
+                            if f['duct'].shape[0] == nd and f['duct'].shape[1] == ncell_d:
+                                return f['duct'][_d]
+                            # un-rodded region: one wall, six values written to the corner cells of the bundle mesh
+                            full = np.zeros(ncell_d)
+                            if _d == 0:
+                                full.reshape(6, -1)[:, -1] = f['duct'][0]
+                            return full
+                        v, tol, br = _interp_fields(planes, inlet, zs, dumped, z, wall)
+                        if br[0] != br[1] and br[0] > 0 and \
+                                planes[br[0] - 1]['duct'].shape != planes[br[1] - 1]['duct'].shape:
+                            # the two dumped planes that bracket z carry different duct meshes (pin bundle /
+                            # un-rodded region): no own value is defined between them
+                            unchecked += 1
+                            continue
+                        got = [float(row[3 + cols[j]]) for row in tab[2:]]
+                        check_col(fname, got, v, tol, 'wall %d, z=%.6f (planes %s)' % (d + 1, z, br), z=z, wall=d,
+                                  kind_sfx=sfx(br), **f0)
+                        if d in (0, nd - 1):
+                            va, tola, _ = _interp_fields(planes, inlet, zs, dumped, z,
+                                                         lambda f, _d=d: f['avg_duct'][0 if _d == 0 else -1])
+                            ga = float(tab[1][3 + cols[j]])
+                            ncell += 1
+                            if abs(ga - va[0]) > tola[0] + 256 * EPS * abs(va[0]):
+                                k_ = 'duct-average' + sfx(br)
+                                if ga == 0.0 and d == nd - 1 and nd > 1:
+                                    k_ = 'duct-average-outer-wall-empty'
+                                bad(k_, fname, 'wall %d, z=%.6f: average cell is not the area-weighted mean '
+                                    'mid-wall temperature of that wall' % (d + 1, z), ga, float(va[0]), float(tola[0]),
+                                    z=z, wall=d, **f0)
+    got_tables = sorted(fn for fn in files if '_a=' in fn)
+    if got_tables != sorted(want_files):
+        bad('file-set', '-', 'assembly tables written are not those requested', got_tables, sorted(want_files))
+    r = _finish(r, c, V, ck.cells + ncell, nstep * len(rx.assemblies), 'asmtables')
+    r['info']['tables'] = len(got_tables)
+    r['extra']['asmtable_columns_without_own_value'] = unchecked
+    return r
+
+
+# ======================================================================
 PROBES = {'report-geometry': (cases_geometry, run_geometry, 'C08'),
           'report-power': (cases_power, run_power, 'C03'),
           'report-flow': (cases_flow, run_flow, 'C12'),
           'report-ebal': (cases_ebal, run_ebal, 'C01'),
-          'report-interasm': (cases_interasm, run_interasm, 'C02')}
+          'report-interasm': (cases_interasm, run_interasm, 'C02'),
+          'report-dumps': (cases_dumps, run_dumps, 'C15'),
+          'report-asmtables': (cases_asmtables, run_asmtables, 'C15')}
 
 
 def run_case(c):
@@ -1639,13 +2480,17 @@ def replay(body):
     c = {k: v for k, v in body['scenario'].items() if k in ('probe', 'rings', 'ducts', 'wire', 'se2geo', 'rings2',
                                                             'ducts2', 'wire2', 'L', 'T', 'M', 'n_asm', 'total',
                                                             'scaling', 'bc', 'ntypes', 'gap', 'fam', 'grid', 'regimes',
-                                                            'layout', 'bf', 'ebal', 'coolant')}
+                                                            'layout', 'bf', 'ebal', 'coolant', 'flags', 'interval', 'planes',
+                                                            'types', 'asms', 'zset')}
     prop = PROBES[c['probe']][2]
     r = guarded(run_case, c, 900)
     for v in r['violations']:
-        print('VIOLATION property=%s replay=(inline) kind=%s site=%s %s' % (prop, v['kind'], v.get('site'), v['what']))
+        print('VIOLATION property=%s replay=(inline) kind=%s site=%s %s'
+              % (v['scenario'].get('prop', prop), v['kind'], v.get('site'), v['what']))
         print('  observed=%s expected=%s tol=%s where=%s'
               % (str(v.get('observed'))[:300], str(v.get('expected'))[:300], v.get('tolerance'),
                  {k: x for k, x in v['scenario'].items() if k not in c}))
     print('outcome', r['outcome'], r.get('info'))
     return 1 if r['violations'] else 0
+
+
